@@ -21,20 +21,21 @@ def toTDoc (gval : Nat → String) (fv : Nat → Int) (ev : Ev) : TDoc := ⟨ev.
 def groupVals (k : Bin) (ds : List TDoc) : List Int :=
   ds.filterMap fun d => if d.bin = k.mid ∧ d.g = some k.token then d.v else none
 
-/-- documents of group token `k.token` that lack the field (reported in the bin without time) -/
-def groupMissing (k : Bin) (ds : List TDoc) : Nat :=
-  if k.mid = 0 then (ds.filter fun d => d.g = some k.token ∧ d.v.isNone).length else 0
+/-- documents of group token `k.token` that lack the field and are tallied under the bin `k.mid`
+(`pb = false`: all under the bin without time; `pb = true`: under their own time bin) -/
+def groupMissing (pb : Bool) (k : Bin) (ds : List TDoc) : Nat :=
+  (ds.filter fun d => missingBin pb d.bin = k.mid ∧ d.g = some k.token ∧ d.v.isNone).length
 
-def groupPres (k : Bin) (ds : List TDoc) : Bool :=
-  decide (groupVals k ds ≠ [] ∨ groupMissing k ds ≠ 0)
+def groupPres (pb : Bool) (k : Bin) (ds : List TDoc) : Bool :=
+  decide (groupVals k ds ≠ [] ∨ groupMissing pb k ds ≠ 0)
 
 theorem groupVals_append (k : Bin) (xs ys : List TDoc) : groupVals k (xs ++ ys) = groupVals k xs ++ groupVals k ys := by
   simp [groupVals, List.filterMap_append]
 
-theorem groupMissing_append (k : Bin) (xs ys : List TDoc) :
-    groupMissing k (xs ++ ys) = groupMissing k xs + groupMissing k ys := by
+theorem groupMissing_append (pb : Bool) (k : Bin) (xs ys : List TDoc) :
+    groupMissing pb k (xs ++ ys) = groupMissing pb k xs + groupMissing pb k ys := by
   unfold groupMissing
-  split <;> simp [List.filter_append]
+  simp [List.filter_append]
 
 theorem groupVals_eq (gval : Nat → String) (fv : Nat → Int) (hinj : ∀ a b, gval a = gval b → a = b)
     (m g : Nat) (evs : List Ev) :
@@ -59,27 +60,26 @@ theorem groupVals_eq (gval : Nat → String) (fv : Nat → Int) (hinj : ∀ a b,
             simp [toTDoc, hg, hf, h1, h2, this]; simpa [toTDoc] using ih
         · simp [toTDoc, hg, hf, h1]; simpa [toTDoc] using ih
 
-theorem groupMissing_eq (gval : Nat → String) (fv : Nat → Int) (hinj : ∀ a b, gval a = gval b → a = b)
+theorem groupMissing_eq (pb : Bool) (gval : Nat → String) (fv : Nat → Int) (hinj : ∀ a b, gval a = gval b → a = b)
     (m g : Nat) (evs : List Ev) :
-    groupMissing ⟨m, gval g⟩ (evs.map (toTDoc gval fv)) = if m = 0 then twoMissing g evs else 0 := by
+    groupMissing pb ⟨m, gval g⟩ (evs.map (toTDoc gval fv)) = twoMissing pb m g evs := by
   unfold groupMissing twoMissing
-  by_cases hm : m = 0
-  · simp only [hm, if_true]
-    induction evs with
-    | nil => rfl
-    | cons ev evs ih =>
-      simp only [List.map_cons, List.filter_cons]
-      cases hg : ev.g with
-      | none => simpa [toTDoc, hg] using ih
-      | some g' =>
-        cases hf : ev.f with
-        | none =>
-          by_cases h2 : g' = g
-          · subst h2; simp [toTDoc, hg, hf]; simpa [toTDoc] using ih
+  induction evs with
+  | nil => rfl
+  | cons ev evs ih =>
+    simp only [List.map_cons, List.filter_cons]
+    cases hg : ev.g with
+    | none => simpa [toTDoc, hg] using ih
+    | some g' =>
+      cases hf : ev.f with
+      | none =>
+        by_cases h1 : missingBin pb ev.bin = m
+        · by_cases h2 : g' = g
+          · subst h2; simp [toTDoc, hg, hf, h1]; simpa [toTDoc] using ih
           · have : gval g' ≠ gval g := fun e => h2 (hinj _ _ e)
-            simp [toTDoc, hg, hf, h2, this]; simpa [toTDoc] using ih
-        | some f' => simp [toTDoc, hg, hf]; simpa [toTDoc] using ih
-  · simp [hm]
+            simp [toTDoc, hg, hf, h1, h2, this]; simpa [toTDoc] using ih
+        · simp [toTDoc, hg, hf, h1]; simpa [toTDoc] using ih
+      | some f' => simp [toTDoc, hg, hf]; simpa [toTDoc] using ih
 
 end SV.Agg
 
@@ -93,15 +93,15 @@ theorem foldl_upsert_nodup {ε : Type} (key : ε → Bin) (upd : ε → SC → S
 
 /-- **TwoSourceAggregator at token level**: every bin `(time bin, group token)` of a fraction's result exists
 exactly when the fraction has a matching document for it, and summarises exactly those documents -/
-theorem twoRun_tok (lim : Nat) (pick : List Int → Nat) (collect : Bool) (gval : Nat → String)
+theorem twoRun_tok (pb : Bool) (lim : Nat) (pick : List Int → Nat) (collect : Bool) (gval : Nat → String)
     (fval : Nat → Option Int) (evs : List Ev)
     (hinj : ∀ a b, gval a = gval b → a = b) (hp : ParseOk fval evs)
     (hl : collect = true → ∀ k, (groupVals k (evs.map (toTDoc gval fun s => (fval s).getD 0))).length ≤ lim) :
-    ∃ a, twoRun lim pick collect gval fval evs = some a ∧ KeysNodup a.bins ∧
+    ∃ a, twoRun pb lim pick collect gval fval evs = some a ∧ KeysNodup a.bins ∧
       a.notExists = ((evs.map (toTDoc gval fun s => (fval s).getD 0)).filter fun d => d.g.isNone && d.v.isSome).length ∧
-      ∀ k, ORep (groupPres k (evs.map (toTDoc gval fun s => (fval s).getD 0)))
+      ∀ k, ORep (groupPres pb k (evs.map (toTDoc gval fun s => (fval s).getD 0)))
                 (groupVals k (evs.map (toTDoc gval fun s => (fval s).getD 0)))
-                (groupMissing k (evs.map (toTDoc gval fun s => (fval s).getD 0))) collect (a.get k) := by
+                (groupMissing pb k (evs.map (toTDoc gval fun s => (fval s).getD 0))) collect (a.get k) := by
   have hl' : collect = true → ∀ m g, (twoDocs m g evs).length ≤ lim := by
     intro hc m g
     have := hl hc ⟨m, gval g⟩
@@ -110,9 +110,9 @@ theorem twoRun_tok (lim : Nat) (pick : List Int → Nat) (collect : Bool) (gval 
       have := (List.mem_filter.mp hev).2
       simp only [decide_eq_true_eq] at this
       exact this.2.2)] at this
-  obtain ⟨a, ha, hne, hspec⟩ := twoRun_spec lim pick collect gval fval evs hinj hp hl'
+  obtain ⟨a, ha, hne, hspec⟩ := twoRun_spec pb lim pick collect gval fval evs hinj hp hl'
   refine ⟨a, ha, ?_, ?_, ?_⟩
-  · have := twoRun_eq lim pick collect gval fval evs hp
+  · have := twoRun_eq pb lim pick collect gval fval evs hp
     rw [ha] at this
     have e := Option.some.inj this
     rw [e]
@@ -131,19 +131,16 @@ theorem twoRun_tok (lim : Nat) (pick : List Int → Nat) (collect : Bool) (gval 
       rcases hspec k.mid g with ⟨h1, h2, h3⟩ | ⟨c, h1, h2, h3⟩
       · have hv : groupVals ⟨k.mid, gval g⟩ (evs.map (toTDoc gval fun s => (fval s).getD 0)) = [] := by
           rw [groupVals_eq gval _ hinj, h2]; rfl
-        have hm : groupMissing ⟨k.mid, gval g⟩ (evs.map (toTDoc gval fun s => (fval s).getD 0)) = 0 := by
-          rw [groupMissing_eq gval _ hinj]
-          rcases h3 with h3 | h3
-          · simp [h3]
-          · simp [h3]
+        have hm : groupMissing pb ⟨k.mid, gval g⟩ (evs.map (toTDoc gval fun s => (fval s).getD 0)) = 0 := by
+          rw [groupMissing_eq pb gval _ hinj]; exact h3
         refine ⟨fun _ => ⟨h1, hv, hm⟩, fun hpres => ?_⟩
         simp [groupPres, hv, hm] at hpres
       · have hv := groupVals_eq gval (fun s => (fval s).getD 0) hinj k.mid g evs
-        have hm := groupMissing_eq gval (fun s => (fval s).getD 0) hinj k.mid g evs
+        have hm := groupMissing_eq pb gval (fun s => (fval s).getD 0) hinj k.mid g evs
         refine ⟨fun hpres => ?_, fun _ => ⟨c, h1, by rw [hv, hm]; exact h3⟩⟩
         exfalso
         simp only [groupPres, decide_eq_false_iff_not, not_or, Decidable.not_not] at hpres
-        rcases h2 with h2 | ⟨h2, h2'⟩
+        rcases h2 with h2 | h2'
         · have hlen := evVals_length (fun s => (fval s).getD 0) (twoDocs k.mid g evs) (fun ev hev => by
             have := (List.mem_filter.mp hev).2
             simp only [decide_eq_true_eq] at this
@@ -151,10 +148,9 @@ theorem twoRun_tok (lim : Nat) (pick : List Int → Nat) (collect : Bool) (gval 
           rw [← hv, hpres.1] at hlen
           exact h2 (List.eq_nil_of_length_eq_zero hlen.symm)
         · rw [hm] at hpres
-          simp [h2] at hpres
           exact h2' hpres.2
     · have hk' : ∀ g, gval g ≠ k.token := fun g e => hk ⟨g, e⟩
-      obtain ⟨a', ha', hnone⟩ := twoRun_absent lim pick collect gval fval evs hp k hk'
+      obtain ⟨a', ha', hnone⟩ := twoRun_absent pb lim pick collect gval fval evs hp k hk'
       rw [ha] at ha'
       have e := Option.some.inj ha'
       subst e
@@ -170,14 +166,12 @@ theorem twoRun_tok (lim : Nat) (pick : List Int → Nat) (collect : Bool) (gval 
         intro d hd
         have := hnog d hd
         simp [this]
-      have hm : groupMissing k (evs.map (toTDoc gval fun s => (fval s).getD 0)) = 0 := by
+      have hm : groupMissing pb k (evs.map (toTDoc gval fun s => (fval s).getD 0)) = 0 := by
         unfold groupMissing
-        split
-        · rw [List.length_eq_zero_iff, List.filter_eq_nil_iff]
-          intro d hd
-          have := hnog d hd
-          simp [this]
-        · rfl
+        rw [List.length_eq_zero_iff, List.filter_eq_nil_iff]
+        intro d hd
+        have := hnog d hd
+        simp [this]
       refine ⟨fun _ => ⟨hnone, hv, hm⟩, fun hpres => ?_⟩
       simp [groupPres, hv, hm] at hpres
 
@@ -194,9 +188,9 @@ structure Frac where
 def Frac.tdocs (f : Frac) : List TDoc := f.evs.map (toTDoc f.gval fun s => (f.fval s).getD 0)
 
 /-- the fraction's group-by + field result as a leaf of a merge tree -/
-def Frac.groupLeaf (lim : Nat) (pick : List Int → Nat) (collect : Bool) (f : Frac) : ALeaf :=
-  ⟨(twoRun lim pick collect f.gval f.fval f.evs).getD AS.empty,
-    fun k => groupPres k f.tdocs, fun k => groupVals k f.tdocs, fun k => groupMissing k f.tdocs⟩
+def Frac.groupLeaf (pb : Bool) (lim : Nat) (pick : List Int → Nat) (collect : Bool) (f : Frac) : ALeaf :=
+  ⟨(twoRun pb lim pick collect f.gval f.fval f.evs).getD AS.empty,
+    fun k => groupPres pb k f.tdocs, fun k => groupVals k f.tdocs, fun k => groupMissing pb k f.tdocs⟩
 
 def MTree.map {α β : Type} (g : α → β) : MTree α → MTree β
   | .leaf a => .leaf (g a)
@@ -213,21 +207,21 @@ theorem groupVals_flatMap {α : Type} (k : Bin) (ls : List α) (g : α → List 
   | nil => rfl
   | cons a ls ih => simp [List.flatMap_cons, groupVals_append, ih]
 
-theorem groupMissing_flatMap {α : Type} (k : Bin) (ls : List α) (g : α → List TDoc) :
-    groupMissing k (ls.flatMap g) = (ls.map fun l => groupMissing k (g l)).sum := by
+theorem groupMissing_flatMap {α : Type} (pb : Bool) (k : Bin) (ls : List α) (g : α → List TDoc) :
+    groupMissing pb k (ls.flatMap g) = (ls.map fun l => groupMissing pb k (g l)).sum := by
   induction ls with
   | nil => simp [groupMissing]
   | cons a ls ih => simp [List.flatMap_cons, groupMissing_append, ih]
 
-theorem groupPres_flatMap {α : Type} (k : Bin) (ls : List α) (g : α → List TDoc) :
-    groupPres k (ls.flatMap g) = ls.any fun l => groupPres k (g l) := by
+theorem groupPres_flatMap {α : Type} (pb : Bool) (k : Bin) (ls : List α) (g : α → List TDoc) :
+    groupPres pb k (ls.flatMap g) = ls.any fun l => groupPres pb k (g l) := by
   induction ls with
   | nil => simp [groupPres, groupVals, groupMissing]
   | cons a ls ih =>
     simp only [List.flatMap_cons, List.any_cons, ← ih]
     simp only [groupPres, groupVals_append, groupMissing_append]
-    by_cases h1 : groupVals k (g a) = [] <;> by_cases h2 : groupMissing k (g a) = 0 <;>
-      by_cases h3 : groupVals k (ls.flatMap g) = [] <;> by_cases h4 : groupMissing k (ls.flatMap g) = 0 <;>
+    by_cases h1 : groupVals k (g a) = [] <;> by_cases h2 : groupMissing pb k (g a) = 0 <;>
+      by_cases h3 : groupVals k (ls.flatMap g) = [] <;> by_cases h4 : groupMissing pb k (ls.flatMap g) = 0 <;>
       simp [h1, h2, h3, h4]
 
 theorem length_le_flatMap {α β : Type} (ls : List α) (g : α → List β) (a : α) (h : a ∈ ls) :
@@ -244,29 +238,29 @@ theorem length_le_flatMap {α β : Type} (ls : List α) (g : α → List β) (a 
 own token tables), combine the results by any tree of `Merge` calls - the final bin `(time bin, group token)`
 exists exactly when some matching document of any fraction belongs to it, and summarises exactly the field values
 of all those documents; `NotExists` counts the matching documents that carry the field but no group. -/
-theorem group_stats_merged (lim : Nat) (pick : List Int → Nat) (collect : Bool) (t : MTree Frac)
+theorem group_stats_merged (pb : Bool) (lim : Nat) (pick : List Int → Nat) (collect : Bool) (t : MTree Frac)
     (hok : ∀ f, f ∈ t.leaves → (∀ a b, f.gval a = f.gval b → a = b) ∧ ParseOk f.fval f.evs)
     (hl : collect = true → ∀ k, (groupVals k (t.leaves.flatMap Frac.tdocs)).length ≤ lim) :
-    (((t.map (Frac.groupLeaf lim pick collect)).eval (mergeLeaf lim pick)).a.notExists =
+    (((t.map (Frac.groupLeaf pb lim pick collect)).eval (mergeLeaf lim pick)).a.notExists =
         ((t.leaves.flatMap Frac.tdocs).filter fun d => d.g.isNone && d.v.isSome).length) ∧
-    ∀ k, ORep (groupPres k (t.leaves.flatMap Frac.tdocs)) (groupVals k (t.leaves.flatMap Frac.tdocs))
-      (groupMissing k (t.leaves.flatMap Frac.tdocs)) collect
-      (((t.map (Frac.groupLeaf lim pick collect)).eval (mergeLeaf lim pick)).a.get k) := by
+    ∀ k, ORep (groupPres pb k (t.leaves.flatMap Frac.tdocs)) (groupVals k (t.leaves.flatMap Frac.tdocs))
+      (groupMissing pb k (t.leaves.flatMap Frac.tdocs)) collect
+      (((t.map (Frac.groupLeaf pb lim pick collect)).eval (mergeLeaf lim pick)).a.get k) := by
   have hleafspec : ∀ f, f ∈ t.leaves →
-      KeysNodup (Frac.groupLeaf lim pick collect f).a.bins ∧
-      (Frac.groupLeaf lim pick collect f).a.notExists = (f.tdocs.filter fun d => d.g.isNone && d.v.isSome).length ∧
-      ∀ k, ORep (groupPres k f.tdocs) (groupVals k f.tdocs) (groupMissing k f.tdocs) collect
-        ((Frac.groupLeaf lim pick collect f).a.get k) := by
+      KeysNodup (Frac.groupLeaf pb lim pick collect f).a.bins ∧
+      (Frac.groupLeaf pb lim pick collect f).a.notExists = (f.tdocs.filter fun d => d.g.isNone && d.v.isSome).length ∧
+      ∀ k, ORep (groupPres pb k f.tdocs) (groupVals k f.tdocs) (groupMissing pb k f.tdocs) collect
+        ((Frac.groupLeaf pb lim pick collect f).a.get k) := by
     intro f hf
     obtain ⟨hinj, hp⟩ := hok f hf
-    obtain ⟨a, ha, h1, h2, h3⟩ := twoRun_tok lim pick collect f.gval f.fval f.evs hinj hp (by
+    obtain ⟨a, ha, h1, h2, h3⟩ := twoRun_tok pb lim pick collect f.gval f.fval f.evs hinj hp (by
       intro hc k
       have h := hl hc k
       rw [groupVals_flatMap] at h
       exact Nat.le_trans (length_le_flatMap t.leaves (fun l => groupVals k l.tdocs) f hf) h)
     simp only [Frac.groupLeaf, ha, Option.getD_some]
     exact ⟨h1, h2, h3⟩
-  have hrep := ATree.rep lim pick collect (t.map (Frac.groupLeaf lim pick collect))
+  have hrep := ATree.rep lim pick collect (t.map (Frac.groupLeaf pb lim pick collect))
     (by
       intro l hl'
       rw [MTree.leaves_map] at hl'
@@ -282,7 +276,7 @@ theorem group_stats_merged (lim : Nat) (pick : List Int → Nat) (collect : Bool
   refine ⟨?_, fun k => ?_⟩
   · rw [hrep.2.1, MTree.leaves_map, List.map_map]
     have : ∀ ls : List Frac, (∀ f, f ∈ ls → f ∈ t.leaves) →
-        (ls.map ((fun l : ALeaf => l.a.notExists) ∘ Frac.groupLeaf lim pick collect)).sum =
+        (ls.map ((fun l : ALeaf => l.a.notExists) ∘ Frac.groupLeaf pb lim pick collect)).sum =
         ((ls.flatMap Frac.tdocs).filter fun d => d.g.isNone && d.v.isSome).length := by
       intro ls
       induction ls with
@@ -295,11 +289,11 @@ theorem group_stats_merged (lim : Nat) (pick : List Int → Nat) (collect : Bool
     exact this t.leaves (fun _ h => h)
   · have := (hrep.2.2 k).1
     rw [MTree.leaves_map] at this
-    have e1 : binVals (t.leaves.map (Frac.groupLeaf lim pick collect)) k = groupVals k (t.leaves.flatMap Frac.tdocs) := by
+    have e1 : binVals (t.leaves.map (Frac.groupLeaf pb lim pick collect)) k = groupVals k (t.leaves.flatMap Frac.tdocs) := by
       rw [groupVals_flatMap]; simp [binVals, List.flatMap_map, Frac.groupLeaf]
-    have e2 : binNe (t.leaves.map (Frac.groupLeaf lim pick collect)) k = groupMissing k (t.leaves.flatMap Frac.tdocs) := by
+    have e2 : binNe (t.leaves.map (Frac.groupLeaf pb lim pick collect)) k = groupMissing pb k (t.leaves.flatMap Frac.tdocs) := by
       rw [groupMissing_flatMap]; simp only [binNe, List.map_map]; rfl
-    have e3 : binPres (t.leaves.map (Frac.groupLeaf lim pick collect)) k = groupPres k (t.leaves.flatMap Frac.tdocs) := by
+    have e3 : binPres (t.leaves.map (Frac.groupLeaf pb lim pick collect)) k = groupPres pb k (t.leaves.flatMap Frac.tdocs) := by
       rw [groupPres_flatMap]; simp only [binPres, List.any_map]; rfl
     rw [e1, e2, e3] at this
     exact this
